@@ -131,7 +131,16 @@ func nonPostIssues(r *model.Result) bool {
 
 func genC13(rt *rapid.T, cfg model.GenCfg, failingPost bool) c13Case {
 	g := model.NewGen(rt, cfg)
-	root := g.GenNode(cfg.MaxDepth, true)
+	var root *model.Node
+	if !failingPost && rapid.IntRange(0, 5).Draw(rt, "shared") == 0 {
+		// one schema object at several places, with per-use destination types (field order, zog tags)
+		saved := g.Cfg
+		g.Cfg.MaxDepth, g.Cfg.PPost, g.Cfg.NoCustom = 1, 0, true
+		root = sharedRoot(rt, g)
+		g.Cfg = saved
+		return c13Case{Root: root, Value: g.GenTyped(root)}
+	}
+	root = g.GenNode(cfg.MaxDepth, true)
 	if failingPost {
 		var nodes []*model.Node
 		root.Walk(func(n *model.Node) {
